@@ -194,6 +194,23 @@ def _gate_edges(F, B, E=None):
     return None
 
 
+def _reads_and_parks(F, A, key):
+    """A private local function every returning path of which bit-copies a handle out (`ptr::read`) and then parks a handle in
+    ManuallyDrop, in that order."""
+    cb = F.body(key) if key else None
+    if cb is None or balance.is_api(F, cb) or key not in A.paths or key in A.errors:
+        return False
+    rets = [q for q in A.paths[key] if q.exit == "ret"]
+    if not rets:
+        return False
+    for q in rets:
+        i_r = idx_of(q.events, lambda e: e["kind"] == "MAKE" and e["detail"].get("via", "").startswith("core::ptr::read"))
+        i_p = idx_of(q.events, lambda e: e["kind"] == "HIDE" and "ManuallyDrop" in str(e["detail"].get("via")))
+        if i_r is None or i_p is None or not i_r < i_p:
+            return False
+    return True
+
+
 def _offset_cow(F, A, b, prs, rep, tag):
     """OffsetArc::make_mut: read the handle out, park it, run Arc's COW on the parked copy, write the (possibly redirected) handle back."""
     key = b["key"]
@@ -209,6 +226,10 @@ def _offset_cow(F, A, b, prs, rep, tag):
         i_guard = idx_of(ev, lambda e: e["kind"] == "DROP" and balance.guard_writes_back(F, A, e["detail"].get("adt")))
         direct = None not in (i_read, i_park, i_cow, i_unpark, i_write) and i_read < i_park < i_cow < i_unpark < i_write
         guarded = None not in (i_read, i_park, i_cow, i_guard) and i_read < i_park < i_cow < i_guard
+        if not (direct or guarded) and i_cow is not None and i_guard is not None and i_cow < i_guard:
+            # the read-out and the parking may live in the guard's private constructor (`WriteBack::take_from(self)`)
+            i_ctor = idx_of(ev[:i_cow], lambda e: e["kind"] == "CALL" and e["detail"].get("outcome") is None and _reads_and_parks(F, A, e["detail"].get("callee")))
+            guarded = i_ctor is not None
         if not (direct or guarded):
             ok, why = False, balance.path_report(F, b, p, "expected: ptr::read of the handle, parking in ManuallyDrop, Arc::make_mut on the parked copy, then the (possibly redirected) handle written back - directly or by a write-back guard")
     if ok and prs:
